@@ -139,8 +139,8 @@ func newCyclers(r *rand.Rand) *cyclers {
 	probe := rand.New(rand.NewSource(1))
 	cands := append(append([]Scenario{pureScenario(probe, 0), pureScenario(probe, 1), pureScenario(probe, 2)}, all...), scopedHeaderScenario(probe, "deliver"))
 	for _, k := range assertKinds {
-		for _, v := range []string{"", "+msg", "/type", "/argc", "/expr", "+emptymsg", "/bad-regex"} {
-			if (v == "/expr" && !exprKinds[k]) || (v == "/argc" && !argcKinds[k]) {
+		for _, v := range []string{"", "+msg", "/type", "/argc", "/expr", "+emptymsg", "/bad-regex", "/in-if", "/in-dead-branch"} {
+			if ((v == "/expr" || v == "/in-if" || v == "/in-dead-branch") && !exprKinds[k]) || (v == "/argc" && !argcKinds[k]) {
 				continue
 			}
 			for _, h := range []bool{true, false} {
@@ -188,19 +188,6 @@ func (c *cyclers) nextGeneric() Scenario {
 	s := c.generic[c.geni%len(c.generic)]
 	c.geni++
 	return s
-}
-
-func (c *cyclers) randomScenario(m string) Scenario {
-	r := c.r
-	switch x := r.Intn(10); {
-	case x < 5:
-		return pureScenario(r, r.Intn(3))
-	case x < 6:
-		return scopedHeaderScenario(r, scopedHeaderScopes[r.Intn(len(scopedHeaderScopes))])
-	default:
-		l := c.constr[m]
-		return l[r.Intn(len(l))]
-	}
 }
 
 func (c *cyclers) newTest(sc Scenario) TestSpec {
@@ -260,7 +247,8 @@ func (c *cyclers) comboTest(m string, mode string) TestSpec {
 		case mode == "random-hold":
 			// a plain instantiation that holds, of a function without a known defect on this tree
 			cb = combo{[]string{"assert.true", "assert.equal", "assert.contains", "assert.not_equal", "assert.is_notset", "assert.not_error"}[r.Intn(6)], "", true}
-		case mode == "hold" || r.Intn(2) == 0:
+		case mode == "hold" || c.hi*len(c.fails) <= c.fi*len(c.holds):
+			// (both cycles advance at the same relative speed)
 			cb = c.holds[c.hi%len(c.holds)]
 			c.hi++
 			c.ci++
@@ -335,12 +323,12 @@ func (c *cyclers) errorTest(m string, assertFree bool) TestSpec {
 func genFile(c *cyclers, id int, k int) FileSpec {
 	r := c.r
 	f := FileSpec{ID: id, Main: string("ABC"[id%3]), K: k}
-	switch x := r.Intn(100); {
-	case x < 10:
+	switch {
+	case id%10 == 3:
 		f.Class = "all-pass"
-	case x < 15:
+	case id%20 == 7:
 		f.Class = "all-skip"
-	case x < 24:
+	case id%10 == 8:
 		f.Class = "only-errors"
 	default:
 		f.Class = "mixed"
@@ -375,7 +363,7 @@ func genFile(c *cyclers, id int, k int) FileSpec {
 		if allHold {
 			ph = 1
 		}
-		for i := 0; i < 6; i++ {
+		for i := 0; i < 7; i++ {
 			if allHold {
 				ts = append(ts, c.comboTest(m, "hold"))
 			} else {
@@ -424,6 +412,11 @@ func genFile(c *cyclers, id int, k int) FileSpec {
 			t.Scopes = []string{suf}
 			t.ByName = true
 			t.Name = t.Name + "_" + suf
+			ts = append(ts, t)
+		}
+		if r.Intn(10) < 2 { // a test without any statement passes
+			t := c.newTest(Scenario{ID: "empty-body", Scopes: anyScope})
+			t.Kind = "empty-body"
 			ts = append(ts, t)
 		}
 		if r.Intn(10) < 3 { // observation: is state carried from one scope's run to the next inside one test?
@@ -488,10 +481,10 @@ type entryExp struct {
 
 type rendered struct {
 	Text    string
-	Start   map[string]int      // entry name -> line of its `sub`
-	ItemLn  map[int][][2]int    // test index -> per item [first,last] line relative to Start
-	Entries []entryExp          // expected result entries, in order
-	Tests   []int               // test indices in order
+	Start   map[string]int   // entry name -> line of its `sub`
+	ItemLn  map[int][][2]int // test index -> per item [first,last] line relative to Start
+	Entries []entryExp       // expected result entries, in order
+	Tests   []int            // test indices in order
 }
 
 func (t *TestSpec) entryName() string {
@@ -621,8 +614,6 @@ func constructed(t *TestSpec, cliTag string) verdict {
 	}
 	return verdict{V: "pass", Asserts: n}
 }
-
-func helperVerdict() verdict { return verdict{V: "pass"} }
 
 // ---- running falco -----------------------------------------------------------------------------
 
@@ -972,10 +963,20 @@ func (c *checker) checkCounts(a *arrRun, cliTag string) {
 				known = false
 				continue
 			}
-			v := constructed(&c.f.Tests[x.Test], cliTag)
-			if v.V != "fail" {
+			t := &c.f.Tests[x.Test]
+			v := constructed(t, cliTag)
+			j := -1
+			if ln := a.rr.entries[i].Line; ln > 0 {
+				j = itemAt(&a.rd, x.Test, ln-a.rd.Start[x.Name]) // the item the report blames
+			}
+			switch {
+			case j >= 0:
+				if t.Items[j].Asserts > 0 {
+					byAssert++
+				}
+			case v.V != "fail":
 				byAssert++ // a hold item reported failed: necessarily through an assertion function
-			} else if c.f.Tests[x.Test].Items[v.Item].Asserts > 0 {
+			case t.Items[v.Item].Asserts > 0:
 				byAssert++
 			}
 		}
